@@ -45,7 +45,7 @@ def src_t(s):
     evs = []
     for e in s["evs"]:
         evs.append({"item": "EvItem", "transient": "EvTransient", "fatal": "EvFatal"}[e[0]] + " " + z(e[1]))
-    return "(SScript [%s])" % "; ".join(evs)
+    return "(%s [%s])" % ("SScriptNC" if k == "scriptnc" else "SScript", "; ".join(evs))
 
 
 def pipe_t(p):
@@ -224,7 +224,7 @@ def has_faults(p):
     bad = [False]
 
     def f(n):
-        if n["t"] == "src" and n["src"]["k"] == "script" and any(e[0] != "item" for e in n["src"]["evs"]):
+        if n["t"] == "src" and n["src"]["k"] in ("script", "scriptnc") and any(e[0] != "item" for e in n["src"]["evs"]):
             bad[0] = True
         if "fl" in n and n["fl"][0] is not None:
             bad[0] = True
@@ -295,7 +295,8 @@ class PipeGen:
         if self.kind == "stream":
             kinds += ["script", "script", "script"]
             if self.faults:
-                kinds = ["script", "script", "script", "slice", "counter"]   # no chan with expired contexts
+                # no chan with expired contexts; scriptnc = a source that never looks at its context
+                kinds = ["script", "script", "script", "scriptnc", "scriptnc", "slice", "counter"]
         k = r.choice(kinds)
         if k == "slice" or k == "chan":
             return {"k": k, "l": self.vals()}
@@ -314,7 +315,7 @@ class PipeGen:
                 self.err += 1
                 pos = r.randint(0, len(evs))
                 evs = evs[:pos] + [["fatal", self.err]]
-        return {"k": "script", "evs": evs}
+        return {"k": k, "evs": evs}
 
     def fl(self):
         if self.kind == "stream" and self.faults and self.rng.random() < 0.25:
@@ -433,12 +434,14 @@ def erase_faults(case):
     c = copy.deepcopy(case)
 
     def f(n):
-        if n["t"] == "src" and n["src"]["k"] == "script":
+        if n["t"] == "src" and n["src"]["k"] in ("script", "scriptnc"):
             n["src"]["evs"] = [e for e in n["src"]["evs"] if e[0] != "transient"]
     walk(c["cfg"]["pipe"], f)
     prog = c["cfg"]["prog"]
     if "steps" in prog:
-        prog["steps"] = [s for s in prog["steps"] if not (s[0] == "next" and s[1] is False)]
+        # a call with an expired context may still deliver an item when a source ignores its context: the twin makes
+        # all those calls with a live context (it then delivers at least as many items; prefixes are compared)
+        prog["steps"] = [([s[0], True] + list(s[2:])) if s[0] == "next" else s for s in prog["steps"]]
     return c
 
 
